@@ -15,13 +15,16 @@ hs = [H("verifC15MulBasis", "linearity slice of the pure-Go multiplier: mul128Ge
       H("verifC15Flip9d0", base + acc + "one bit of the payload u-matrix flipped at a SYMBOLIC (column,row) (all 128 x 9 positions), Delta = all ones (every column selected: must abort)"),
       H("verifC15Flip3d1", base + acc + "n=3, one payload bit flipped at a symbolic position, sparse Delta (3 selected columns: both outcomes reachable)"),
       H("verifC15Two9d1", base + acc + "n=9, TWO payload bits flipped at symbolic positions, sparse Delta"),
+      H("verifC15Cross9d1", base + acc + "n=9, one payload bit AND one check-batch bit (rows 0..15 of the check batch) flipped in the same symbolic column at independent symbolic rows (a flip in one batch compensated by one in the other), sparse Delta"),
+      H("verifC15Chk9d1", base + acc + "n=9, one bit of the 256-row CHECK batch's u-matrix flipped at a symbolic (column, row in 0..15), sparse Delta"),
       H("verifC15Resp9d1", base + acc + "n=9, arbitrary non-zero xor masks on the challenge response (x, t0, t1)")]
 if tier != "quick":
     hs += [H("verifC15Flip9d1", base + acc + "n=9, one payload bit at a symbolic position, sparse Delta"),
            H("verifC15Flip9d2", base + acc + "n=9, one payload bit at a symbolic position, pseudo-random Delta"),
-           H("verifC15Chk9d1", base + acc + "n=9, one bit of the 256-row CHECK batch's u-matrix flipped at a symbolic (column,row), sparse Delta"),
-           H("verifC15Chk9d2", base + acc + "n=9, one check-batch bit flipped, pseudo-random Delta"),
+           H("verifC15ChkHi9d2", base + acc + "n=9, one check-batch bit flipped at a symbolic (column, row in 240..255), pseudo-random Delta"),
+           H("verifC15Chk9d2", base + acc + "n=9, one check-batch bit flipped at a symbolic (column, row in 0..15), pseudo-random Delta"),
            H("verifC15Two9d2", base + acc + "n=9, two payload bits flipped, pseudo-random Delta"),
+           H("verifC15Cross9d2", base + acc + "n=9, one payload bit and one check-batch bit flipped in the same symbolic column, pseudo-random Delta"),
            H("verifC15Row9d1", base + acc + "n=9, an arbitrary non-zero mask xored into ONE ROW of the payload u-matrix (any set of columns), sparse Delta"),
            H("verifC15Honest17", base + "n=17 (three payload byte-rows), no tampering"),
            H("verifC15Flip17d2", base + acc + "n=17, one payload bit at a symbolic position, pseudo-random Delta"),
@@ -40,5 +43,5 @@ sys.exit(run_property(
      "(checked on all basis vectors x all b by verifC15MulBasis; the assembly multiplier itself is outside the claim)"],
     ["quantification over Delta, chi, base keys and PRG outputs (samples only); adversarial alterations chosen with knowledge of chi and Delta (the check's kernel is non-empty by linear "
      "algebra: such paths end in the 'accepted' branch only when the outputs stay consistent, which is what is asserted)",
-     "batch sizes other than 3, 9 (thorough 17); more than two flips; the CLMUL assembly multiplier; n > 1024 (several chi blocks)"],
+     "check-batch flips outside rows 0..15 (thorough: and 240..255); batch sizes other than 3, 9 (thorough 17); more than two flips; the CLMUL assembly multiplier; n > 1024 (several chi blocks)"],
     uses_uf=False, quick_deadline=900, thorough_deadline=3000, parallel=8))
